@@ -1,0 +1,13 @@
+//go:build verif
+
+package bchutil
+
+// Exports for the /verif conformance harness (build tag verif only).
+
+// VerifPolyMod exposes the cashaddr checksum remainder function.
+func VerifPolyMod(v []byte) uint64 { return polyMod(v) }
+
+// VerifConvertBits exposes the cashaddr bit regrouping function.
+func VerifConvertBits(data []byte, fromBits uint, tobits uint, pad bool) ([]byte, error) {
+	return convertBits(data, fromBits, tobits, pad)
+}
